@@ -434,6 +434,63 @@ func c14R7(c *Ctx) {
 					}
 					return false
 				})
+				// (b) the fraction itself: time.Parse hands it to a signed integer scanner, so "+12" is read as
+				// 012. Before the call a loop over input[k+1:] confines every byte to '0'..'9' (it compares the
+				// byte with both bounds and its header dominates the call).
+				var digitLoops []*natLoop
+				for _, l := range naturalLoops(fn) {
+					if l.body[cl.Block()] {
+						continue
+					}
+					overFraction, lo, hi := false, false, false
+					for b := range l.body {
+						for _, ins := range b.Instrs {
+							switch x := ins.(type) {
+							case *ssa.IndexAddr:
+								so := p.Origin(x.X)
+								if so.Kind == "slice" && so.X != nil && so.X.IsConstInt(int64(k+1)) && in.Mentions(func(y *Org) bool { return so.Base != nil && y.Kind == so.Base.Kind && y.String() == so.Base.String() }) {
+									overFraction = true
+								}
+							case *ssa.BinOp:
+								for _, side := range []ssa.Value{x.X, x.Y} {
+									if v, isC := constIntOf(side); isC {
+										if v == '0' {
+											lo = true
+										}
+										if v == '9' {
+											hi = true
+										}
+									}
+								}
+							}
+						}
+					}
+					if overFraction && lo && hi {
+						digitLoops = append(digitLoops, l)
+					}
+				}
+				// every path to the call has either left such a loop through its normal exit or taken a
+				// branch on which the input is too short to have a fraction (len <= k)
+				mf := &MustFlow{Fn: fn, Transfer: func(ssa.Instruction, Set) {}, Edge: func(from, to *ssa.BasicBlock, st Set) {
+					for _, l := range digitLoops {
+						if l.body[from] && !l.body[to] {
+							st["ok"] = true
+						}
+					}
+					if edgeCond(p, from, to).Implies(func(a *Atom) bool {
+						if a.Rel != "<=" && a.Rel != "<" {
+							return false
+						}
+						v, isC := a.R.ConstIntVal()
+						return isC && a.L.IsCallTo("len") && (a.Rel == "<=" && v <= int64(k) || a.Rel == "<" && v <= int64(k+1))
+					}) {
+						st["ok"] = true
+					}
+				}}
+				okDigits := len(digitLoops) > 0 && mf.Before(cl.(ssa.Instruction))["ok"]
+				c.Check(okDigits, FuncName(fn), p.InstrPos(cl.(ssa.Instruction)), fmt.Sprintf("fraction-digits:%d", len(layout)),
+					fmt.Sprintf("layout %q parsed only after input[%d:] was confined to digits", layout, k+1),
+					fmt.Sprintf("time.Parse with layout %q is reached without a loop that confines the bytes after the separator (input[%d:]) to '0'..'9': Go's parser reads the fraction with a signed integer scanner, so \"…:SS.+12\" is accepted as …:SS.012 — a text outside the FIX grammar is read as a value and written back differently", layout, k+1))
 				c.Check(okSep, FuncName(fn), p.InstrPos(cl.(ssa.Instruction)), fmt.Sprintf("fraction-separator:%d", len(layout)),
 					fmt.Sprintf("layout %q parsed only when input[%d] == '.'", layout, k),
 					fmt.Sprintf("time.Parse with layout %q is reached without a test that input[%d] is '.': Go's parser also accepts a comma before the fraction, so a text outside the FIX grammar (…:SS,sss) is read as a value and written back differently", layout, k))
